@@ -650,3 +650,23 @@ Section MEANING.
       rewrite <- (lowest_allowed_need keqb keqb_sym keqb_trans res prev ctys k Hwr Hwp Hk Hir Hip Hm). exact Hlt.
   Qed.
 End MEANING.
+
+(* all first round seats belong to parties of the proportional tier: nothing is set aside *)
+Section DROP.
+  Context {K : Type}.
+  Variable keqb : K -> K -> bool.
+  Hypothesis keqb_sym : forall a b, keqb a b = keqb b a.
+  Hypothesis keqb_trans : forall a b c, keqb a b = true -> keqb b c = true -> keqb a c = true.
+
+  Definition direct_in_tier (res prev : list (Cty * list (K * Z))) : Prop :=
+    Forall (fun cg => Forall (fun pg : K * Z => tier keqb res (fst pg) = true \/ snd pg = 0) (snd cg)) prev.
+
+  Lemma drop_zero_tier res prev : direct_in_tier res prev -> drop_of keqb res prev = 0.
+  Proof.
+    intros H. unfold drop_of. rewrite nonprop_drop_spec. apply zsumf_zero. intros [c g] Hin. simpl.
+    apply zsumf_zero. intros [p x] Hp. simpl. rewrite (lowest_allowed_mem keqb keqb_sym keqb_trans).
+    unfold direct_in_tier in H. rewrite Forall_forall in H. pose proof (H _ Hin) as Hg. simpl in Hg.
+    rewrite Forall_forall in Hg. destruct (Hg _ Hp) as [Ht|Hz]; simpl in *; [rewrite Ht; reflexivity|].
+    destruct (tier keqb res p); [reflexivity|exact Hz].
+  Qed.
+End DROP.
